@@ -13,8 +13,8 @@ Parts
                       final config) must be equal.  A difference is a concrete violation.  Outputs of
                       divide_loop / stage_mem / expand_dim pipelines go through the same check.
   4. attribution    : a value change that the faithful model reproduces exactly and that disappears
-                      under one named repair of the MODEL (0 <= numerator for `%`; names made unique;
-                      no config write) is reported under that finding's key; anything else is reported
+                      under one named repair of the MODEL (names made unique; no config write) is
+                      reported under that finding's key; anything else is reported
                       under the generic key and is a VIOLATION.
 """
 from __future__ import annotations
@@ -31,7 +31,6 @@ from common import import_exo, lean_batch, LeanDriver, InfraError, LEAN, REPO, R
 
 DRIVER = "Drivers/C12.lean"
 
-KEY_MOD = "simplify:modulo:negative-numerator"
 KEY_SHADOW = "simplify:fact-table:shadowed-name"
 KEY_CFG = "simplify:fact-table:config-write"
 KEY_QUOT = "simplify:quotient-remainder:same-name"
@@ -581,7 +580,7 @@ class Gen:
             return f"(({self.expr(vs, depth - 1)} / {r.choice([2, 3, 4])}) / {r.choice([2, 3, 4])})"
         if k == 3:   # modulo with multiples dropped
             return f"(({v} + {d * r.choice([1, 2, -1])} * {w} + {r.choice([0, d, 2 * d, 1, -1])}) % {d})"
-        if k == 4:   # negative numerator under % (finding F2 when the range is [<m))
+        if k == 4:   # negative numerator under % (the old finding F2: `%` must stay unless 0 <= e is known)
             return f"(({v} - {r.choice([1, 2, 3, 5])}) % {r.choice([4, 8, 16])})"
         if k == 5:   # negative numerator under /
             return f"(({v} - {r.choice([1, 2, 3, 5])}) / {d})"
@@ -711,7 +710,8 @@ class Gen:
         return lines
 
 
-# fixed procedures: the findings, documented rewrites, near misses
+# fixed procedures (run first): the old F2 witness (fixed in /repo by d86c98ae — a regression shows up as a
+# value change with this concrete input), the open findings, documented rewrites, near misses
 FIXED = [
     ("f2_mod_negative", """def {name}(x: f32[16]):
     for i in seq(0, 4):
@@ -1026,8 +1026,6 @@ class Checker:
                 reqs.append(json.dumps({"op": "simplify", "sizes": b["sizes"], "preds": b["preds"], "body": b["body"]}))
                 owners.append((k, "model"))
                 if r["witness"] is not None:
-                    reqs.append(json.dumps({"op": "simplify", "fixmod": True, "sizes": b["sizes"], "preds": b["preds"], "body": b["body"]}))
-                    owners.append((k, "fixmod"))
                     ra = rename_apart(b)
                     reqs.append(json.dumps({"op": "simplify", "sizes": ra["sizes"], "preds": ra["preds"], "body": ra["body"]}))
                     owners.append((k, "renamed"))
@@ -1037,7 +1035,7 @@ class Checker:
                     df = defact(b)
                     reqs.append(json.dumps({"op": "simplify", "sizes": df["sizes"], "preds": df["preds"], "body": df["body"]}))
                     owners.append((k, "defact"))
-                    reqs.append(json.dumps({"op": "simplify", "fixmod": True, "sizes": ra["sizes"], "preds": ra["preds"],
+                    reqs.append(json.dumps({"op": "simplify", "sizes": ra["sizes"], "preds": ra["preds"],
                                             "body": drop_cfg_writes(ra)["body"]}))
                     owners.append((k, "all"))
         extra = list(extra)
@@ -1086,7 +1084,7 @@ class Checker:
             keys = []
             if model_same:
                 b = r["before_s"]
-                variants = {"fixmod": (b, KEY_MOD), "renamed": (rename_apart(b), KEY_SHADOW), "nocfgw": (drop_cfg_writes(b), KEY_CFG),
+                variants = {"renamed": (rename_apart(b), KEY_SHADOW), "nocfgw": (drop_cfg_writes(b), KEY_CFG),
                             "defact": (defact(b), None)}
                 fixed_by = {}
                 for name, (bb, key) in variants.items():
@@ -1096,8 +1094,6 @@ class Checker:
                         aa = dict(bb, body=a["body"], preds=a["preds"])
                         _, ww = compare_on_box(bb, aa, self.cap)
                         fixed_by[name] = ww is None
-                if fixed_by["fixmod"]:
-                    keys.append(KEY_MOD)
                 if fixed_by["renamed"]:
                     # printed-name comparison: the fact table if emptying the table also repairs it,
                     # otherwise is_quotient_remainder
@@ -1111,14 +1107,12 @@ class Checker:
                         aa = dict(bb, body=a["body"], preds=a["preds"])
                         _, ww = compare_on_box(bb, aa, self.cap)
                         if ww is None:
-                            keys = [KEY_MOD, KEY_SHADOW, KEY_CFG]   # several causes at once
+                            keys = [KEY_SHADOW, KEY_CFG]   # several causes at once
                             # keep only the causes that are syntactically present
                             if not has_shadow(b):
                                 keys.remove(KEY_SHADOW)
                             if count_nodes(b)["w"] == 0:
                                 keys.remove(KEY_CFG)
-                            if count_nodes(b)["mod"] == 0:
-                                keys.remove(KEY_MOD)
             if keys:
                 for key in keys:
                     ctx.count(f"{stream}:attributed:{key}")
